@@ -10,6 +10,10 @@ EVID = os.path.join(VERIF, "evidence")
 HARNESS = os.path.join(BUILD, "harness")
 DRIVER = os.path.join(BUILD, "model_driver")
 TRANSLATOR = os.path.join(BUILD, "translator")
+FRUNDIS = os.path.join(BUILD, "frundis")
+RUNDIR = os.path.join(BUILD, "run")
+os.environ["VERIF_FRUNDIS"] = FRUNDIS
+os.environ["VERIF_RUNDIR"] = RUNDIR
 
 GOENV = dict(os.environ, GOFLAGS="-mod=mod", GOPROXY="off", GOSUMDB="off", GOTOOLCHAIN="local", CGO_ENABLED="0")
 
@@ -67,6 +71,9 @@ def build_go(log):
     rc, out = sh(["go", "build", "-tags", "verif", "-o", HARNESS, "."], cwd=os.path.join(VERIF, "go/harness"), env=GOENV)
     if rc != 0:
         raise Broken("go build of the harness against /repo failed", out[-3000:])
+    rc, out = sh(["go", "build", "-o", FRUNDIS, "./cmd/frundis"], cwd=REPO, env=GOENV)
+    if rc != 0:
+        raise Broken("go build of /repo/cmd/frundis failed", out[-3000:])
     rc, out = sh(["go", "build", "-o", TRANSLATOR, "."], cwd=os.path.join(VERIF, "go/translator"), env=GOENV)
     if rc != 0:
         raise Broken("go build of the translator failed", out[-3000:])
@@ -223,9 +230,16 @@ def build_driver(log):
 
 
 def run_lines(binary, stream, lines, args=(), timeout=1800, cwd=None):
+    os.makedirs(RUNDIR, exist_ok=True)
     data = "".join(l + "\n" for l in lines)
+    def big_stack():
+        import resource      # the extracted model recurses on long lists (not tail-recursive): lift the stack limit
+        try:
+            resource.setrlimit(resource.RLIMIT_STACK, (resource.RLIM_INFINITY, resource.RLIM_INFINITY))
+        except (ValueError, OSError):
+            pass
     p = subprocess.run([binary, stream] + list(args), input=data, stdout=subprocess.PIPE, stderr=subprocess.PIPE,
-                       text=True, errors="replace", timeout=timeout, cwd=cwd)
+                       text=True, errors="replace", timeout=timeout, cwd=cwd, preexec_fn=big_stack if binary == DRIVER else None)
     out = p.stdout.split("\n")
     if out and out[-1] == "":
         out.pop()
@@ -279,8 +293,19 @@ class Stream:
 
     def run(self):
         t0 = time.time()
-        rc1, self.go, e1 = run_parallel(HARNESS, self.cmd, self.cases, self.args)
-        rc2, self.model, e2 = run_parallel(DRIVER, self.model_cmd, self.cases, self.args)
+        rc1, self.go, e1 = run_parallel(HARNESS, self.cmd, self.cases, self.args, jobs=12)
+        if getattr(self, "impl_only", False):
+            # a stream observed on the implementation only (effects on the file system, processes): no model column
+            if len(self.go) != len(self.cases):
+                raise Broken("stream %s: implementation harness produced %d lines for %d cases (rc=%d)" % (self.name, len(self.go), len(self.cases), rc1), e1[-2000:])
+            self.model = list(self.go)
+            for i, (c, a) in enumerate(zip(self.cases, self.go)):
+                r = self.oracle(c, a) if self.oracle else (a if a.startswith("VIOL") else None)
+                if r:
+                    self.oracle_hits.append((i, r))
+            self.wall = round(time.time() - t0, 2)
+            return
+        rc2, self.model, e2 = run_parallel(DRIVER, self.model_cmd, self.cases, self.args, jobs=12)
         if len(self.go) != len(self.cases):
             raise Broken("stream %s: implementation harness produced %d lines for %d cases (rc=%d)" % (self.name, len(self.go), len(self.cases), rc1), e1[-2000:])
         if len(self.model) != len(self.cases):
